@@ -200,7 +200,8 @@ inductive Pc where
   -- pool management
   | smSet (n : Nat)
   | dpRead
-  | dpPop (max : Nat)
+  | dpLock (max : Nat)
+  | dpHang (max : Nat) (gone : List Nat)
   | dpJoin (todo : List Nat)
   deriving DecidableEq, Repr, Hashable, Inhabited
 
